@@ -52,13 +52,13 @@ Fresh(n) == [k \in 1..n |-> nid + k - 1]   \* ids of n new item objects
 
 CallConstruct(i, ls) ==
   LET xs == [k \in 1..Len(ls) |-> [id |-> nid + k - 1, label |-> ls[k], good |-> TRUE]]
-      r  == AddSeq([ex |-> TRUE, items |-> <<>>, chans |-> <<>>, aux |-> 0], xs, <<>>, 1)
+      r  == AddSeq([ex |-> TRUE, items |-> <<>>, chans |-> <<>>, aux |-> 0, szok |-> TRUE], xs, <<>>, 1)
   IN [o |-> [op |-> "construct", i |-> i, xs |-> xs], w2 |-> [w EXCEPT ![i] = r.inst], res |-> OkRes(<<>>), used |-> Len(ls)]
 
 CallDecode(i, j) ==
   LET a == w[i]
       d == [ex |-> TRUE, items |-> [k \in 1..Len(a.items) |-> Item(nid + k - 1, a.items[k].label)], chans |-> a.chans,
-            aux |-> a.aux]
+            aux |-> a.aux, szok |-> TRUE]
   IN [o |-> [op |-> "decode", i |-> i, j |-> j], w2 |-> [w EXCEPT ![j] = d], res |-> OkRes(<<>>), used |-> Len(a.items)]
 
 CallAdd(i, l, good, c) ==
